@@ -9,9 +9,13 @@ SRC=${SEED_SRC:-/tmp/wt-$PID/_seeded}; SFX=${SEED_SUFFIX:-}
 DST=/verif/seeded/$NAME; mkdir -p "$DST"
 cp "$SRC/patch$SFX.diff" "$DST/patch.diff"; cp "$SRC/demo$SFX.py" "$DST/demo.py"; cp "$SRC/note$SFX.txt" "$DST/note.txt" 2>/dev/null
 S=/var/tmp/verif-seed-$$; rm -rf "$S"; mkdir -p "$S/clean" "$S/mod"
-(cd /repo && git archive HEAD) | tar -x -C "$S/clean"; (cd /repo && git archive HEAD) | tar -x -C "$S/mod"
+# SEED_BASE: the commit the patch was written against (default HEAD); when it is older than HEAD the
+# commits in between (verification hooks) are replayed on top of the patched copy
+BASE=${SEED_BASE:-HEAD}
+(cd /repo && git archive HEAD) | tar -x -C "$S/clean"; (cd /repo && git archive $BASE) | tar -x -C "$S/mod"
 cd "$S/mod" && git init -q . 2>/dev/null
-if ! git apply "$DST/patch.diff" 2>/dev/null && ! patch -p1 -s < "$DST/patch.diff"; then echo "PATCH-FAILED"; rm -rf "$S"; exit 3; fi
+if ! git apply "$DST/patch.diff" 2>/dev/null && ! patch -p1 -s --forward < "$DST/patch.diff"; then echo "PATCH-FAILED"; rm -rf "$S"; exit 3; fi
+if [ "$BASE" != "HEAD" ]; then (cd /repo && git diff $BASE HEAD) > "$S/later.diff"; if ! patch -p1 -s --forward --dry-run < "$S/later.diff" >/dev/null 2>&1; then echo "note: later commits (hooks) not replayed on the patched copy"; else patch -p1 -s --forward < "$S/later.diff"; fi; fi
 SUITE=$(cd "$S/mod" && PYTHONPATH="$S/mod" /venv/bin/python -m pytest -q -p no:cacheprovider --timeout=900 --continue-on-collection-errors 2>&1 | tail -1)
 (cd "$S/clean" && PYTHONPATH="$S/clean" PYTHONWARNINGS=ignore /venv/bin/python "$DST/demo.py" >/dev/null 2>&1); DC=$?
 (cd "$S/mod" && PYTHONPATH="$S/mod" PYTHONWARNINGS=ignore /venv/bin/python "$DST/demo.py" >/dev/null 2>&1); DM=$?
